@@ -6,6 +6,7 @@ import (
 	"go/token"
 	"go/types"
 	"math/bits"
+	"strconv"
 	"strings"
 
 	"golang.org/x/tools/go/ssa"
@@ -156,6 +157,20 @@ func (ip *Interp) Imprecise(why string) {
 		fn = f.String() + ": "
 	}
 	ip.Imprec = append(ip.Imprec, fn+why)
+}
+
+// havocObj forgets everything known about the contents of o (after a write that
+// is not modelled cell by cell).
+func (ip *Interp) havocObj(st *State, o *Obj) {
+	prefix := strconv.Itoa(o.ID)
+	for k := range st.Heap.local {
+		if strings.HasPrefix(k, prefix) && (len(k) == len(prefix) || k[len(prefix)] == '.' || k[len(prefix)] == '[') {
+			delete(st.Heap.local, k)
+		}
+	}
+	ip.fresh++
+	o.Kind = ObjSym
+	o.Name = fmt.Sprintf("%s~w%d", strings.SplitN(o.Name, "~w", 2)[0], ip.fresh)
 }
 
 // havocVal is an unknown value of type t with an identity.
@@ -1128,7 +1143,7 @@ func (ip *Interp) step(act *activation, st *State, instr ssa.Instruction) bool {
 		ev.Result = res
 		act.env[t] = res
 	case *ssa.MapUpdate:
-		ip.event(Event{Kind: "map-update", Args: []Val{ip.get(act, st, t.Map), ip.get(act, st, t.Key), ip.get(act, st, t.Value)}, Instr: t})
+		ip.event(Event{Kind: "map-update", Args: []Val{ip.get(act, st, t.Map), ip.get(act, st, t.Key), ip.get(act, st, t.Value)}, Instr: t, GuardL: ip.GuardList(st)})
 	case *ssa.Call:
 		res, cont := ip.call(act, st, t, t.Common())
 		if !cont {
@@ -1142,7 +1157,7 @@ func (ip *Interp) step(act *activation, st *State, instr ssa.Instruction) bool {
 		it := ip.get(act, st, t.Iter)
 		tt := t.Type().(*types.Tuple)
 		ip.fresh++
-		base := fmt.Sprintf("next#%d", ip.fresh)
+		base := fmt.Sprintf("next#%d<%s>", ip.fresh, ValKey(it))
 		tp := &Tuple{E: []Val{&Bool{K: TriTop, Key: base + ".ok"}}}
 		for i := 1; i < tt.Len(); i++ {
 			et := tt.At(i).Type()
@@ -1152,7 +1167,6 @@ func (ip *Interp) step(act *activation, st *State, instr ssa.Instruction) bool {
 			}
 			tp.E = append(tp.E, ip.havocVal(fmt.Sprintf("%s.%d", base, i), et))
 		}
-		_ = it
 		act.env[t] = tp
 	case *ssa.SliceToArrayPointer, *ssa.MultiConvert, *ssa.Select, *ssa.Send, *ssa.Go, *ssa.Defer, *ssa.RunDefers, *ssa.MakeChan:
 		ip.Imprecise(fmt.Sprintf("unsupported instruction %T", instr))
@@ -1765,7 +1779,7 @@ func (ip *Interp) builtin(act *activation, st *State, site ssa.CallInstruction, 
 		r := NewSym(64, ip.In.Atom(fmt.Sprintf("copy#%d", ip.fresh), 64, hi), true)
 		ev.Result = r
 		if dst != nil && dst.Base.Obj != nil && dst.Base.Obj.Kind == ObjFresh {
-			ip.Imprecise("copy with symbolic bounds into local storage")
+			ip.havocObj(st, dst.Base.Obj)
 		}
 		return r, true
 	case "append":
